@@ -517,7 +517,7 @@ impl Arena {
 //@@fn file=unsync.rs scope="impl Arena {" name=alloc_bytes_in xlate=unsync st=mut props=C01,C03,C04,C08,C09,C10,C20
 //@attr #[verifier::spinoff_prover]
 //@contract @alloc_bytes_in
-//@before 1 /let want = /
+//@entry
     let ghost s0 = st@;
 //@after 1 /unsafe \{ allocated\.clear\(self, st\) \};/
       proof {
